@@ -53,7 +53,7 @@ class Builder:
     def __init__(self, W, cxx=False, extra_defs=()):
         self.W = W
         self.cxx = cxx
-        self.extra = list(extra_defs)
+        self.extra = [d if d.startswith("-") else "-D" + d for d in extra_defs]
         self.inc = ["-I" + os.path.join(REPO, "src"), "-I" + W, "-I" + os.path.join(VERIF, "harness"), "-I" + os.path.join(VERIF, "spec")]
         self.libbc = []
         self.libobj = []
